@@ -56,6 +56,9 @@ CHECKS = {
  "C20": ("7/C20", "TLC model checks of Debounce.tla and Throttle.tla + TLC validation of recordings of the real Delay/debounce (virtual clock) and of every interleaving of throttle programs (controlled scheduler + virtual clock)",
          "the library's `sync` and `time` imports are redirected (scratch copy only) to a controllable scheduler and a virtual clock. Delay/NewDebounce: every sequence of call/cancel/stop and clock jumps of 1/3/4/5 units (wait 4, 1, 0) to depth 6 (thorough 8) plus seeded bursts of up to 50 calls with gaps below/at/above waits 5/20/50 and cancels anywhere; every scheduled function logs its id and the virtual instant it ran at, and TLC accepts the recording only if each run is at or after last call + wait, once per burst, never after cancel, and has happened once the clock passed last call + wait. Throttle: for every script over {Call, Cancel, Advance 2/4/5} up to length 3 (thorough 4), trailing on/off, with 1 thread calling Next once or twice or 2 threads once, EVERY interleaving of the critical sections within a preemption bound of 2 (thorough 3; switches at blocking points are free) is executed on the real code; the event sequence (calls, cancels, each clock jump as it happens, Next invocations/returns, the threads still parked at quiescence) is validated against Throttle.tla with the unlogged Grant/Deny linearization step searched between invocation and return: at most one permission per period, one stored trigger however many arrive, a trailing trigger only when configured, false promptly after Cancel, nobody left parked while a permission or a cancel is available. TLC also checks both specs against the wording over logs and shows that enabling the repaired defect (early hand-out of a trailing trigger) violates Spacing.",
          "exact in virtual time only (no wall-clock pass); interleavings are complete at critical-section granularity up to the preemption bound; a trigger exactly at the end of a period and a run exactly at last call + wait may go either way; which function of a burst runs is not pinned by the statement"),
+ "C02": ("7/C02", "TLC validation of every interleaving of small concurrent programs on the real containers against Lin.tla (linearizability as a subset construction over the sequential specs), with the acceptor itself model-checked",
+         "the library's `sync` import is redirected (scratch copy only) to a controlled scheduler: exactly one thread runs, and it hands the baton back before every lock acquisition and at every call boundary. For each of the 8 lock-guarded types (stack, linked stack, queue, linked queue, heap, bstree, trie, expiring cache), 2-3 initial contents and every program of 2 threads x (2,1) or (1,1) calls (thorough: also 2 x (2,2) and 3 x 1) over its single-element operations (5-7 per type), EVERY interleaving of critical sections within a preemption bound of 2 (thorough 3) is executed on the real code, followed by observations of the final contents (size/count, drain or traversal, lookups). Each execution is an event sequence (invocations, returns with results, observations); TLC validates it against Lin.tla, which searches the unlogged linearization points between invocation and return over the SAME sequential Out operators that decide C03-C06/C08/C09 (reused through INSTANCE), so an execution is accepted iff some order of the calls that respects finished-before-began explains every result and the contents afterwards. LinMC.tla shows the acceptor accepts every history of an atomic model and rejects histories of a split dequeue.",
+         "complete at critical-section granularity up to the preemption bound, for the program shapes listed; the scheduler's completeness rests on shared accesses being inside critical sections (C01 checks that); behaviours pinned by open sequential findings (LStack.Pop, BsTree size drift) count as the sequential meaning here"),
  "C05": ("7/C05", "TLC model check of Queue.tla + TLC validation of tree-shaped recordings of the real queues",
          "TLC checks Queue!Out against the FIFO/exactly-once/size wording exhaustively (3 values, 7 ops); every Enqueue/Dequeue/Clear sequence to depth 6 (thorough 8) on both implementations plus long seeded drain/refill runs is executed on the real code, with Size/Peek/Search observed after every call and a drain at every node, and TLC accepts the recording only if every call is an outcome of Queue!Out.",
          "bounded scope (depth, 3-value alphabet) plus seeded long runs; observers are the public API; TLC, the Go toolchain and the driver's projection are trusted"),
